@@ -34,6 +34,8 @@ class Emitter:
             if ch == '\n':
                 self.line += 1
                 self.col = 0
+            elif ch == '\r':
+                pass                      # part of a CRLF break
             else:
                 self.col += 1
 
@@ -45,8 +47,15 @@ def scalar_json(v):
     return json.dumps(v, ensure_ascii=False)
 
 
+def lead_in(e, rng):
+    # empty lines (LF or CRLF) at the very start of the text: positions are those of the whole file
+    k = rng.choice([0, 0, 0, 1, 2, 3])
+    e.w(rng.choice(['\n', '\n', '\r\n']) * k if k else '')
+
+
 def emit_json(rng, doc):
     e = Emitter(rng)
+    lead_in(e, rng)
     ind = rng.choice([None, 1, 2, 4])
     def sp():
         if rng.random() < 0.2:
@@ -118,6 +127,7 @@ def yaml_key(rng, k):
 
 def emit_flow_yaml(rng, doc):
     e = Emitter(rng)
+    lead_in(e, rng)
     if rng.random() < 0.3:
         e.w('# generated document\n')
     def brk(depth):
@@ -156,7 +166,9 @@ def emit_flow_yaml(rng, doc):
 
 def emit_block_yaml(rng, doc):
     e = Emitter(rng)
+    lead_in(e, rng)
     step = rng.choice([2, 3, 4])
+    base = rng.choice([0, 0, 0, 2, 3])          # the top-level node may be uniformly indented
     if rng.random() < 0.3:
         e.w('# generated document\n')
     if rng.random() < 0.3:
@@ -228,7 +240,7 @@ def emit_block_yaml(rng, doc):
         g(x, ptr)
         return None, None
     if isinstance(doc, (dict, list)) and doc:
-        go(doc, '', 0, None)
+        go(doc, '', base, None)
     else:
         go(doc, '', 0, 'key')
     e.w('\n')
@@ -426,6 +438,11 @@ def reported_paths(ctx, n):
         rules = gen.render_file(prog)
         atext, awant = alias_rules(rng, doc, 3)
         rules += atext
+        if k % 3 == 0 and '' not in doc:
+            # a map entry whose key is the empty string: the pointer has an empty segment (`//Size`)
+            doc = dict(doc)
+            doc[''] = {'Size': 5, 'inner': [1, {'a': 2}], '': {'deep': 7}}
+            rules += 'rule emptykey {\n  this.*.Size == 987654\n  this.*.inner[*] == 987654\n  this.*.*.deep == 987654\n}\n'
         name, em = EMITTERS[k % len(EMITTERS)]
         text, pos = em(rng, doc)
         d = os.path.join(ctx.wd, 'q%d' % k)
@@ -435,8 +452,12 @@ def reported_paths(ctx, n):
         jobs.append({'args': ['validate', '-r', 'r.guard', '-d', fn, '--structured', '-o', 'json', '-S', 'none'], 'cwd': d})
     res = e2e.run_many(jobs)
     npaths, nun, nloc, nalias = 0, 0, 0, 0
+    nskipped = 0
     for sc, (code, so, se) in zip(scen, res):
         if code not in (0, 19):
+            nskipped += 1
+            if code == 5:
+                raise ToolingError('a generated rules file of the C10 monitor does not parse: %s\n%s' % (se.decode('utf-8', 'replace')[:300], sc['rules'][-400:]))
             continue
         info = {'class': 'reported-path', 'rules': sc['rules'], 'doc': sc['doc'], 'format': sc['format'], 'text': sc['text']}
         try:
@@ -520,6 +541,7 @@ def reported_paths(ctx, n):
     ctx.coverage['unresolved_checks_checked'] = nun
     ctx.coverage['message_locations_checked'] = nloc
     ctx.coverage['case_alias_queries_checked'] = nalias
+    ctx.coverage['scenarios_with_an_evaluation_error'] = nskipped
     ctx.coverage['evaluations'] += n
     ctx.sample({'rules': scen[0]['rules'], 'format': scen[0]['format'], 'text': scen[0]['text'][:600]})
     return npaths + nun
